@@ -911,7 +911,18 @@ namespace chaiscript {
         const auto start = m_position;
         if (Id_()) {
           auto text = Position::str(start, m_position);
-          const auto text_hash = utility::hash(text);
+          // the switch below is on the hash alone; an identifier that merely collides with a
+          // keyword's hash must be an ordinary identifier
+          constexpr std::string_view keyword_spellings[] = {"true", "false", "Infinity", "NaN", "__LINE__", "__FILE__", "__FUNC__", "__CLASS__", "_"};
+          const bool is_keyword
+              = std::find(std::begin(keyword_spellings), std::end(keyword_spellings), std::string_view(text)) != std::end(keyword_spellings);
+          const auto text_hash = is_keyword ? utility::hash(text) : utility::hash("");
+          static_assert(utility::hash("") != utility::hash("true") && utility::hash("") != utility::hash("false")
+                            && utility::hash("") != utility::hash("Infinity") && utility::hash("") != utility::hash("NaN")
+                            && utility::hash("") != utility::hash("__LINE__") && utility::hash("") != utility::hash("__FILE__")
+                            && utility::hash("") != utility::hash("__FUNC__") && utility::hash("") != utility::hash("__CLASS__")
+                            && utility::hash("") != utility::hash("_"),
+                        "the empty string must select the default branch");
 
           if (validate) {
             validate_object_name(text);
